@@ -92,6 +92,12 @@ class Xform(Harness):
                 if (tier == "quick" and n >= 3) or n >= 4:
                     base["max_inputs"] = 1
                     base["light"] = True  # one payload, two name schemes
+                if op == "dedup" and n == 3 and base.get("max_inputs") == 1:
+                    # two-input nodes (also declared in swapped order) over a shared parent
+                    extra = {"op": op, "n": 3, "max_inputs": 2, "light": True}
+                    from vf.engine_xh import split_prefixes as _sp
+
+                    out += [{**extra, "_prefix": p} for p in _sp(self.body, extra, 8)]
                 if n >= 3:
                     from vf.engine_xh import split_prefixes
 
